@@ -9,6 +9,9 @@ CONSTANTS
   MaxNons = 0
   WordCounts = {1}
   GenBlockTypes = {"c", "i"}
+  GenNoteKinds = {"title", "D", "R", "N", "E", "I", "M"}
+  GenSubTypes = {"B", "C", "S", "T", "W"}
+  Terse = FALSE
   Rich = FALSE
   Phased = FALSE
 INVARIANT WellFormed
